@@ -65,12 +65,22 @@ def reg_pass(seed, count, label, lines_fn=None):
                     if broken: has_broken.append(name)
                 order = names[:]; rnd.shuffle(order)
                 ops = []
-                seen_entry = False
+                # files other files re-export from: while one of them is missing beff falls through to an `export *` that also
+                # provides the name, where the model (and TypeScript) report the missing module — an observation recorded under
+                # C14, not part of this comparison: no rebuild until they are all there
+                reexp = set()
+                def walk(t):
+                    if isinstance(t, list):
+                        if t and t[0] in ("export-from", "export-all", "export-ns") and isinstance(t[-1], tuple): reexp.add(t[-1][1])
+                        for y in t: walk(y)
+                for sp in specs: walk(sp)
+                seen_entry, done = False, set()
                 for n in order:
                     ops.append(["u", ("s", n), "1"])
+                    done.add(n)
                     seen_entry = seen_entry or n == "entry.ts"
                     # (no rebuild before the entry point exists: what the tool does without one is not part of the model)
-                    if seen_entry and rnd.random() < 0.6: ops.append(["r"])
+                    if seen_entry and reexp <= done and rnd.random() < 0.6: ops.append(["r"])
                 # a second round: the importing files are saved again (their contents did not change)
                 if rnd.random() < 0.5:
                     for n in rnd.sample(order, max(1, len(order) // 2)):
